@@ -405,6 +405,23 @@ pub fn drive(a: &Args) {
             out.emit(run_behaviour(route, &ivs, &chars, &sets));
         }
     }
+    // long lists for try_from_list / try_from_iter with ONE overlapping or duplicated interval somewhere, in several
+    // scrambled orders (sorting routines change strategy with the length): must be rejected, never panic
+    for &n in &[9usize, 16, 17, 20, 21, 22, 27, 33, 40] {
+        let base: Vec<Iv> = (0..n as u32).map(|k| (10 * k + 5, 10 * k + 8)).collect();
+        for (vi, extra) in [(10 * (n as u32 / 2) + 6, 10 * (n as u32 / 2) + 7), (10 * (n as u32 / 2) + 8, 10 * (n as u32 / 2) + 16), (5, 5), (0, MAX_CHAR)].iter().enumerate() {
+            for shuffle in 0..3u64 {
+                let mut l = base.clone();
+                l.push(*extra);
+                let mut r2 = Rng::new(a.seed ^ (n as u64 * 131 + vi as u64 * 17 + shuffle));
+                for k in (1..l.len()).rev() {
+                    let j = r2.below(k as u64 + 1) as usize;
+                    l.swap(k, j);
+                }
+                out.emit(run_behaviour("list", &l, &[0, 5, MAX_CHAR], &[(5, 8)]));
+            }
+        }
+    }
     // a long partition merged with a short one (in both orders, and as a list): the short one before, inside,
     // between and after the intervals of the long one, filling the gap at 0 or leaving it
     for n in [3usize, 9, 16, 17, 18, 33, a.sz(40, 130)] {
